@@ -424,7 +424,8 @@ func guards(r *mc.Result, tier string) []string {
 		}
 	}
 	for _, form := range Forms {
-		if r.Counters["ok:form:"+form.Expr] == 0 {
+		// a() can only fail: no function of the alphabet takes zero arguments
+		if form.Expr != "a()" && r.Counters["ok:form:"+form.Expr] == 0 {
 			f = append(f, "form never produced a non-error value: "+form.Expr)
 		}
 	}
@@ -543,6 +544,7 @@ func init() {
 		Classify:    classify,
 		HangLimit:   10 * time.Minute,
 		SingleLimit: 5 * time.Minute,
-		Budget:      map[string]time.Duration{"quick": 6 * time.Minute, "thorough": 40 * time.Minute},
+		// generous: the targets are CPU-based (about 1 min / 12 min of CPU per core); other jobs share the machine
+		Budget: map[string]time.Duration{"quick": 20 * time.Minute, "thorough": 90 * time.Minute},
 	})
 }
